@@ -1703,9 +1703,10 @@ def _divisions_from_statistics(aggregated_stats, index_name):
 
     argsort = minmax.argsort()
     sorted_minmax = minmax[argsort]
-    if not sorted_minmax.is_monotonic_increasing:
-        return tuple([None] * (len(aggregated_stats) + 1)), None
     for file_min, file_max in sorted_minmax:
+        if last_max is not None and file_min < last_max:
+            # The index ranges of two files overlap
+            return tuple([None] * (len(aggregated_stats) + 1)), None
         divisions.append(file_min)
         last_max = file_max
     divisions.append(last_max)
